@@ -11,8 +11,13 @@
    (C02_code_claimable_reachable; no hypothesis on the database is left), the claim is a legal request
    (C02_code_claim_request_wf) and the state after it is again reachable.  One hypothesis on the query: the unsuffixed
    group names every class once (un_rcs_nodup) - derived for every accepted query string (C03_accepted_un_rcs_nodup).
-   Not covered: claims below 1.28 (no consumer_generation in the request); the KeyError / order-dependent answers of
-   the search (no candidate list is returned); the check also claims every returned candidate on the real application. *)
+   The claim is accepted at EVERY microversion of the claiming client (C02_code_claimable_reachable_all_versions): the
+   write path reads the version in two places only - the consumer-generation check from 1.28 (null for a new consumer) and
+   the consumer type from 1.38 - and the body of the version (project_id / user_id from 1.8, list or dict form of the
+   allocations) decodes to the same parsed allocations; the one version-dependent refusal is a NON-null
+   consumer_generation for a consumer that does not exist, 409 from 1.28 (C02_claim_generation_conflict).
+   Not covered: the KeyError / order-dependent answers of the search (no candidate list is returned); the JSON encoding
+   of the claim body; the check also claims every returned candidate on the real application. *)
 From PV Require Import Proofs.Defs Spec.CandSpec Proofs.C02 Proofs.C02m Proofs.C02c Proofs.C03s Proofs.C03u Proofs.C03w Proofs.C02s.
 
 Theorem C02_providers_exist : forall k v q d a s, rps_wf d ->
@@ -128,4 +133,35 @@ Theorem C02_caps_nonneg_not_invariant :
   map (fun i => (i_total i, i_reserved i, cap_trunc i, cap_floor i)) (invs (run (mkCfg 0 0) db0 ng_ops)) = [(1, 2, 0, -1)].
 Proof. exact c02s_caps_nonneg_not_invariant. Qed.
 Print Assumptions C02_caps_nonneg_not_invariant.
+
+(* ---------------------------------------------------------------------------------------------------------------
+   Every microversion of the claiming client.  claim_in c k op ou oty: the candidate's allocations for consumer k with
+   optional project / user / consumer type and no (or a null) consumer_generation; cons_in_at v' ..: the members the body
+   of microversion v' carries (project_id / user_id from 1.8, consumer_type from 1.38; Model/Decode.v:dec_cons). *)
+Theorem C02_code_claimable_all_versions : forall cf v q d a s c k op ou oty v',
+  RI d -> inv_keys_nodup d -> rps_wf d -> parentless_root d -> cap_ok d -> un_rcs_nodup q ->
+  candidates v q d = COk a s -> In c a -> find_cons d k = None ->
+  status (snd (step cf d (AllocPut v' (claim_in c k op ou oty)))) = 204.
+Proof. exact c02_code_claimable_all_versions. Qed.
+Print Assumptions C02_code_claimable_all_versions.
+
+Theorem C02_code_claimable_reachable_all_versions : forall cf l v q a s c k proj user ty v',
+  reqs_wf l -> un_rcs_nodup q ->
+  candidates v q (run cf db0 l) = COk a s -> In c a -> find_cons (run cf db0 l) k = None ->
+  status (snd (step cf (run cf db0 l) (AllocPut v' (cons_in_at v' c k proj user ty)))) = 204 /\
+  status (snd (step cf (run cf db0 l) (AllocPut v' (cons_in_of c k proj user ty)))) = 204 /\
+  req_wf (AllocPut v' (cons_in_at v' c k proj user ty)) = true.
+Proof. exact c02_code_claimable_reachable_all_versions. Qed.
+Print Assumptions C02_code_claimable_reachable_all_versions.
+
+(* the version-dependent refusal: consumer_generation 0 for a new consumer is accepted (ignored) at 1.27, 409 from 1.28;
+   the body of each version, with a null / absent generation, is accepted at 1.0, 1.7, 1.8, 1.11, 1.12, 1.27, 1.28, 1.37, 1.38, 1.39 *)
+Theorem C02_claim_generation_conflict :
+  let c := mkCreq (-1) [mkRreq 3 2 2; mkRreq 4 0 1] [(1, [3]); (0, [4; 3])] in
+  let rq := mkConsIn 100 (map (alloc_in_of c) (providers_of c)) (Some 1) (Some 1) (Some 0) None in
+  map (fun v' => status (snd (step (mkCfg 0 0) sh_db (AllocPut v' rq)))) [27; 28; 39] = [204; 409; 409] /\
+  map (fun v' => status (snd (step (mkCfg 0 0) sh_db (AllocPut v' (cons_in_at v' c 100 1 1 1))))) [0; 7; 8; 11; 12; 27; 28; 37; 38; 39]
+    = [204; 204; 204; 204; 204; 204; 204; 204; 204; 204].
+Proof. exact c02_claim_generation_conflict. Qed.
+Print Assumptions C02_claim_generation_conflict.
 
